@@ -228,6 +228,7 @@ func uniq(s []string) []string {
 
 func main() {
 	r := ev.New("C12", "exploration")
+	concurrentPart(r) // E3 part (in a shard worker process this runs its share and exits)
 	bs := bases()
 	vs := make([][]variant, len(bs))
 	maxV := 0
